@@ -28,13 +28,15 @@ FromVector(o) == /\ o \in Obj \ live /\ depth < MaxDepth
                  /\ live' = live \cup {o}
                  /\ st' = [st EXCEPT ![o] = Fresh0("mps", IF LegacyFromVector THEN "list" ELSE "ndarray")]
                  /\ depth' = depth + 1 /\ UNCHANGED raised
-(* orthonormalize / compress / TDVP / DMRG: need array-typed charges (unary minus), keep the total charges of non-zero states *)
+(* orthonormalize / compress / TDVP / DMRG: need array-typed charges (unary minus), keep the total charges of non-zero states; *)
+(* the zero state may come back as a unit-norm state (the QR of a zero block returns an isometry and R = 0), with any charges *)
 InPlace(o, becomesZero) ==
     /\ o \in live /\ st[o].cls = "mps" /\ depth < MaxDepth /\ ~raised
     /\ IF st[o].kind # "ndarray" THEN raised' = TRUE /\ UNCHANGED st
        ELSE /\ raised' = raised
-            /\ st' = [st EXCEPT ![o].zero = @ \/ becomesZero,
-                                ![o].qL = IF st[o].zero \/ becomesZero THEN @ ELSE @]
+            /\ \E q \in {0, 1} :
+                 st' = [st EXCEPT ![o].zero = becomesZero,
+                                  ![o].qL = IF st[o].zero THEN q ELSE @]
     /\ depth' = depth + 1 /\ UNCHANGED live
 (* a + b, a - b: same class, same boundary charges *)
 Add(a, b, r) == /\ a \in live /\ b \in live /\ r \in Obj \ live /\ depth < MaxDepth /\ ~raised
